@@ -51,11 +51,19 @@ def translate():
     need("x_prime=np.array([self.prior_transform(u_p)foru_pinu_prime])" in t, fn, "x' = T(u')", w)
     need("logl_prime,blobs_prime=self._evaluate_likelihood(x_prime)" in t, fn, "(l', b') = L(x')", w)
     need("u_prime[k]=self._propose(k)" in t, fn, "proposals", w)
+    # every row of u_prime lies in the cube: either proposals are returned only after the bounds check (redraw shape), or
+    # run() replaces the rows failing the bounds check by the current rows before anything is derived from them
+    tl = t.replace("\n", "")
+    replaced = ("inside=np.array([check_bounds(u_p,self.periodic,self.reflective)foru_pinu_prime])" in tl
+                and "u_prime[~inside]=self.u[~inside]" in tl
+                and tl.index("u_prime[k]=self._propose(k)") < tl.index("inside=np.array([check_bounds(") < tl.index("u_prime[~inside]=self.u[~inside]")
+                < tl.index("x_prime=np.array("))
     for cls in ("TPCNRunner", "RWMRunner"):
-        p = _ns(get_function(REPO / "tempest" / "mcmc.py", f"{cls}._propose"))
-        need("proposal=apply_boundary_conditions(proposal,self.periodic,self.reflective)" in p
-             and "ifcheck_bounds(proposal,self.periodic,self.reflective):returnproposal".replace(":", ":\n") .replace("\n", "") in p.replace("\n", ""),
-             fn, f"{cls}: proposals returned only after the bounds check", "mcmc.py")
+        p = _ns(get_function(REPO / "tempest" / "mcmc.py", f"{cls}._propose")).replace("\n", "")
+        looped = ("proposal=apply_boundary_conditions(proposal,self.periodic,self.reflective)" in p
+                  and "ifcheck_bounds(proposal,self.periodic,self.reflective):returnproposal" in p)
+        single = p.endswith("returnapply_boundary_conditions(proposal,self.periodic,self.reflective)") and "while" not in p
+        need(looped or (single and replaced), fn, f"{cls}: proposals are bounds-checked before they can be accepted", "mcmc.py")
     accept = [(k, acc[k]) for k in ("u", "x", "logl", "blobs")]
     # ---- Mutator.run
     w = "mutate.py:Mutator.run"
@@ -100,8 +108,11 @@ def T(u):
     return 8.0 * np.asarray(u) - 4.0 + 0.25 * np.sin(3.0 * np.asarray(u))
 
 
+CENTRE = [0.0]  # set per configuration: 0 = interior target, 3.6 = mass against the upper faces of the prior box
+
+
 def Lval(x):
-    return -0.5 * float(np.sum(x ** 2)) + 0.3 * float(np.cos(x[0] * 1.7))
+    return -0.5 * float(np.sum((x - CENTRE[0]) ** 2)) + 0.3 * float(np.cos(x[0] * 1.7))
 
 
 def Lblob(x):
@@ -172,6 +183,13 @@ def run_cfg(run, cfg, seed, tier):
     try:
         s.run(n_total=36, progress=False)
     except Exception as e:
+        import traceback
+        tb = traceback.format_exc()
+        if type(e).__name__ == "LinAlgError" and "fit_mvstud" in tb and "from_particles" in tb:
+            # the run was aborted by the singular scale of a one-point cluster: C14's listed finding, not a coherence question;
+            # every step executed before the abort has been checked above
+            run.count("run aborted in ModeStatistics.from_particles (one-point cluster, C14 finding); steps before it were checked")
+            return
         run.fail("run-raises", f"run raised {type(e).__name__}: {e}", **what)
         return
     if not ok[0]:
@@ -196,7 +214,8 @@ def run_cfg(run, cfg, seed, tier):
 
 def sweep(run, tier, rng):
     opts = dict(sample=["tpcn", "rwm"], resample=["mult", "syst"], clustering=[False, True], blobs=[False, True],
-                vectorize=[False, True], bc=["none", "periodic", "reflective", "mixed"], vv=[None, 0.5], hole=[False, True])
+                vectorize=[False, True], bc=["none", "periodic", "reflective", "mixed"], vv=[None, 0.5], hole=[False, True],
+                centre=[0.0, 3.6])
     keys = list(opts)
     # pairwise covering by random greedy
     want = {(a, va, b, vb) for a, b in itertools.combinations(keys, 2) for va in opts[a] for vb in opts[b]}
@@ -224,7 +243,9 @@ def sweep(run, tier, rng):
         run.case(key=("cfg", i), nontrivial=True)
         for k, v in r.items():
             run.count(f"{k}={v}")
+        CENTRE[0] = r["centre"]
         run_cfg(run, cfg, rng.randrange(2 ** 31), tier)
+    CENTRE[0] = 0.0
     run.sample(dict(first_rows=[str(r) for r in rows[:3]], uncovered_pairs=len(want)))
 
 
@@ -242,7 +263,7 @@ def main(tier, seed):
     try:
         translate()
         run.obligation("translate:plumbing selectors (resample/accept/replace/commit)", True)
-    except TranslateError as e:
+    except Exception as e:  # fail closed: anything the translator cannot digest
         run.obligation("translate:plumbing selectors (resample/accept/replace/commit)", False, str(e))
     run.prove("Props/C07.v", link_rels=["Link/Coherent.v"])
     try:
